@@ -31,6 +31,56 @@ def _is_symnum(v):
 FOREVER = 10 ** 9
 
 
+def clone(v, memo=None):
+    """Structure-preserving copy of a world (faster than copy.deepcopy; immutable parts are shared)."""
+    if memo is None:
+        memo = {}
+    t = type(v)
+    if v is None or t in (bool, int, str, bytes, Sym, Lin, App, SymStr, Cond, FuncV, BuiltinV, Ext):
+        return v
+    i = id(v)
+    if i in memo:
+        return memo[i]
+    if t is Obj:
+        o = Obj.__new__(Obj)
+        memo[i] = o
+        o.cls = clone(v.cls, memo) if v.cls.mutable else v.cls
+        o.label = v.label
+        o.uid = v.uid
+        o.fields = {k: clone(x, memo) for k, x in v.fields.items()}
+        for k, x in v.__dict__.items():
+            if k not in ("cls", "label", "uid", "fields"):
+                o.__dict__[k] = x
+        return o
+    if t is DictV:
+        d = DictV.__new__(DictV)
+        memo[i] = d
+        d.uid = v.uid
+        d.items = {clone(k, memo) if type(k) is Obj else k: clone(x, memo) for k, x in v.items.items()}
+        for k, x in v.__dict__.items():
+            if k not in ("uid", "items"):
+                d.__dict__[k] = x
+        return d
+    if t is ListV:
+        l = ListV.__new__(ListV)
+        memo[i] = l
+        l.uid = v.uid
+        l.items = [clone(x, memo) for x in v.items]
+        return l
+    if t is dict:
+        d = {}
+        memo[i] = d
+        for k, x in v.items():
+            d[k] = clone(x, memo)
+        return d
+    if t is tuple:
+        return tuple(clone(x, memo) for x in v)
+    if t is ClassV and not v.mutable:
+        return v
+    r = copy.deepcopy(v, memo)
+    return r
+
+
 def _old(v, slot):
     """opaque per-slot symbol; values at least FOREVER away keep that one fact (C01.O1)"""
     from fractions import Fraction
@@ -101,6 +151,64 @@ def normalize(root, label="w"):
                 walk(x, f"{path}[{j}]")
 
     walk(root, label)
+
+
+def numeric_slots(root, label="w"):
+    """(path, value) of every numeric slot reachable from root; same path scheme as normalize()."""
+    out = {}
+    seen = set()
+
+    def isnum(x):
+        from fractions import Fraction
+
+        return (isinstance(x, (int, Fraction)) and not isinstance(x, bool)) or isinstance(x, (Lin, App)) or (isinstance(x, Sym) and x.kind == "num")
+
+    def walk(v, path):
+        if isinstance(v, Obj):
+            if id(v) in seen:
+                return
+            seen.add(id(v))
+            for k, x in v.fields.items():
+                if isnum(x):
+                    out[f"{path}.{k}"] = x
+                else:
+                    walk(x, f"{path}.{k}")
+        elif isinstance(v, DictV):
+            if id(v) in seen:
+                return
+            seen.add(id(v))
+            for k, x in v.items.items():
+                if isnum(x):
+                    out[f"{path}[{k}]"] = x
+                else:
+                    walk(x, f"{path}[{k}]")
+        elif isinstance(v, ListV):
+            if id(v) in seen:
+                return
+            seen.add(id(v))
+            for j, x in enumerate(v.items):
+                if isnum(x):
+                    out[f"{path}[{j}]"] = x
+                else:
+                    walk(x, f"{path}[{j}]")
+        elif isinstance(v, dict):
+            for k, x in v.items():
+                if isnum(x):
+                    out[f"{path}.{k}"] = x
+                else:
+                    walk(x, f"{path}.{k}")
+        elif isinstance(v, ClassV) and v.mutable:
+            if id(v) in seen:
+                return
+            seen.add(id(v))
+            for k, x in v.ns.items():
+                walk(x, f"{v.name}.{k}")
+        elif isinstance(v, tuple):
+            for j, x in enumerate(v):
+                walk(x, f"{path}[{j}]")
+
+    walk(root, label)
+    return out
 
 
 def canon(root):
@@ -215,7 +323,7 @@ def close(program, world0, ghost0, client_actions, run_action, monitor, make_hoo
                 it = Interp(program, ch, hooks)
                 if configure is not None:
                     configure(it)
-                w = copy.deepcopy(world)
+                w = clone(world)
                 hooks.world = w
                 outcome = "return"
                 obs = None
